@@ -228,3 +228,49 @@ M("c13_new_backward_mover", ["C13"], ["C13.R4"], [
         }
         Checkpoint::new(self.chunk.get())
     }""")])
+
+# ---------------------------------------------------------------- C10
+M("c10_after_header_erased_add1", ["C10"], ["C10.R3", "C10.R3b"], [
+    ("src/stats/any.rs", "unsafe { self.header.cast::<u8>().add(self.header_size) }", "unsafe { self.header.add(1).cast() }")])
+M("c10_header_size_of_erased", ["C10"], ["C10.R3"], [
+    ("src/stats/any.rs", "header_size: size_of::<ChunkHeader<A>>(),", "header_size: size_of::<ChunkHeader>(),")])
+M("c10_shrink_up_without_align", ["C10"], ["C10.R1"], [
+    ("src/allocator_impl.rs", """            let new_pos = up_align_usize_unchecked(end, S::MIN_ALIGN);
+
+            // `is_last` returned true, which guarantees a non-dummy
+            bump.chunk.get().as_non_dummy_unchecked().set_pos_addr(new_pos);""", """            let new_pos = end;
+
+            // `is_last` returned true, which guarantees a non-dummy
+            bump.chunk.get().as_non_dummy_unchecked().set_pos_addr(new_pos);""")])
+M("c10_stats_remaining_sums_prev", ["C10"], ["C10.R2"], [
+    ("src/stats.rs", """        let mut sum = current.remaining();
+        current.iter_next().for_each(|chunk| sum += chunk.capacity());""", """        let mut sum = current.remaining();
+        current.iter_prev().for_each(|chunk| sum += chunk.capacity());""")])
+M("c10_anystats_allocated_sums_allocated", ["C10"], ["C10.R2"], [
+    ("src/stats/any.rs", """        let mut sum = current.allocated();
+        current.iter_prev().for_each(|chunk| sum += chunk.capacity());""", """        let mut sum = current.allocated();
+        current.iter_prev().for_each(|chunk| sum += chunk.allocated());""")])
+M("c10_anychunk_remaining_down_wrong_end", ["C10"], ["C10.R3", "C10.R2"], [
+    ("src/stats/any.rs", """        } else {
+            let start = self.content_start();
+            let end = self.bump_position();
+            end.addr().get() - start.addr().get()
+        }""", """        } else {
+            let start = self.chunk_start();
+            let end = self.content_end();
+            end.addr().get() - start.addr().get()
+        }""")])
+M("c10_down_align_wrong_mask", ["C10"], ["C10.R1c"], [
+    ("src/lib.rs", """    let mask = align - 1;
+    addr & !mask
+}""", """    let mask = align - 1;
+    addr & mask
+}""")])
+M("c10_align_from_wrong_comparison", ["C10"], ["C10.R1"], [
+    ("src/raw_bump.rs", "if pos_align < S::MIN_ALIGN {", "if pos_align > S::MIN_ALIGN {")])
+M("c10_append_for_prev_none", ["C10"], ["C10.R4"], [
+    ("src/raw_bump.rs", "let new_chunk = Self::new::<B>(size, Some(self), allocator)?;", "let new_chunk = Self::new::<B>(size, None, allocator)?;")])
+M("c10_new_uses_unaligned_granted_size", ["C10"], ["C10.R5"], [
+    ("src/raw_bump.rs", "let size = ChunkSize::<A, S>::align_allocation_size(size);", "let size = size & !15;")])
+M("c10_align_to_wrong_gate", ["C10"], ["C10.R1"], [
+    ("src/raw_bump.rs", "if MinimumAlignment::VALUE > S::MIN_ALIGN {", "if MinimumAlignment::VALUE != 0 {")])
